@@ -195,7 +195,7 @@ func vhP2PKSound(maxN, maxPub, maxRef, maxS int) {
 }
 
 func VHarnessP2PKSound()     { vhP2PKSound(3, 1, 1, 3) }
-func VHarnessP2PKSoundWide() { vhP2PKSound(4, 3, 2, 4) }
+func VHarnessP2PKSoundWide() { vhP2PKSound(3, 2, 2, 3) }
 
 // C12 completeness: the witness produced by the library's own helper with an authorised key is accepted for every
 // lock one key can satisfy (n_sigs <= 1 with the data key; after the locktime with a refund key or anyone).
